@@ -263,6 +263,20 @@ def check_embed(case):
             got = res.array[tuple(idx + [c])]
             if np.any(np.abs(got - ref) > tol):
                 raise Violation("line-independence", f"axis {ax} line {rest} component {c}: {got} vs 1-d result {ref}")
+    # the same (integer) numbers held in another storage type have the same derivative
+    st_ = [None, np.int64, np.int16, np.float32, np.complex128][case["seed"] % 5]
+    if st_ is not None:
+        # complex storage: the numbers times (1 + 0.5i) - by linearity the derivative times (1 + 0.5i)
+        zf = (1 + 0.5j) if st_ is np.complex128 else 1
+        f2 = df.Field(mesh, nvdim=nvdim, value=arr.astype(st_) * zf, dtype=st_, valid=mask, unit=case["unit"])
+        res2 = f2.diff(dims[ax], order=order, restrict2valid=case["r2v"])
+        rtol = 1e-5 if st_ is np.float32 else 1e-12
+        want2 = res.array * zf
+        if not np.allclose(res2.array, want2, rtol=rtol, atol=rtol * float(np.max(np.abs(want2)) + 1e-300)):
+            i = tuple(np.argwhere(~np.isclose(res2.array, want2, rtol=rtol))[0])
+            raise Violation("storage-type-dependence", f"the derivative of the same numbers stored as {np.dtype(st_).name} "
+                                                       f"differs: {res2.array[i]} vs {want2[i]} at {i}")
+        tag(f"storage={np.dtype(st_).name}")
 
 
 SUBS = [
